@@ -18,7 +18,7 @@ import (
 
 func main() {
 	run := evid.New("C07", "fault_enumeration")
-	run.Rule("case = (codec variant, payload limit, 4 frames drawn from the frame kinds found by trial encoding {single, aggr, frag2, frag3, mixed} (all combinations) + sentinel, fault sequence of <=k faults from {drop, dup adjacent, dup 2 later, swap} at every position, deduplicated by resulting arrival order); non-trivial = at least one fault applied AND the oracle had at least one frame it had to see intact; distinct = (codec, limit, kinds, arrival order)")
+	run.Rule("case = (codec variant, payload limit, 4 frames drawn from the frame kinds found by trial encoding {single, aggr, frag2, frag3, mixed} (all combinations) + sentinel, plus for decoders with a unit-count limit L (H264 50, H265 21, AV1 10) three 5-frame streams built from the kind 'many' = L/2+1 units in L/2+1 packets (one fault fewer), fault sequence of <=k faults from {drop, dup adjacent, dup 2 later, swap} at every position, deduplicated by resulting arrival order); non-trivial = at least one fault applied AND the oracle had at least one frame it had to see intact; distinct = (codec, limit, kinds, arrival order)")
 	run.Assume("a frame is owed intact iff its packets arrive as one contiguous in-order run, each exactly once in the whole stream, immediately preceded by the complete in-order run of the previous frame (frame 0: at the very start); anything else is damage and unconstrained")
 	run.Assume("for encoders that emit independently decodable packets the units returned during the frame's own packets are concatenated")
 
@@ -90,6 +90,13 @@ func main() {
 					}
 				}
 			}
+			// frames that reach the decoder's unit-count limit once a damaged predecessor left units behind
+			if many := codecx.ManyUnitsKind(c, limit); many != nil {
+				kinds["many"] = many
+				mu.Lock()
+				kindsUsed[fmt.Sprintf("%s@%d", c.Name, limit)] = kinds
+				mu.Unlock()
+			}
 			// all 4-tuples of kinds
 			var streams [][]string
 			var rec func(cur []string)
@@ -103,8 +110,16 @@ func main() {
 				}
 			}
 			rec(nil)
+			nTuples := len(streams)
+			if kinds["many"] != nil {
+				streams = append(streams, []string{"many", "many", "many", "many", "many"}, []string{"single", "many", "many", "frag2", "many"}, []string{"many", "aggr", "many", "many", "single"})
+			}
 			evid.Parallel(len(streams), 16, func(si int) {
 				ks := streams[si]
+				maxFaults := maxFaults
+				if si >= nTuples {
+					maxFaults-- // long streams (one packet per unit): one fault fewer
+				}
 				var sizes [][]int
 				for _, k := range ks {
 					sizes = append(sizes, kinds[k])
